@@ -3,7 +3,7 @@ import gc
 
 from hypothesis import strategies as st
 
-from anytree import AnyNode, Node, SymlinkNode
+from anytree import AnyNode, LoopError, Node, SymlinkNode
 
 from .. import big, mut, nodes, shapes
 from ..core import Violation
@@ -27,7 +27,7 @@ ASSUMPTIONS = [
     "homogeneous families only: NodeMixin-based and LightNodeMixin-based universes are never mixed (cross-family attaches raise AttributeError; the statement quantifies over each family)",
     "non-node arguments are generated for NodeMixin-based classes only (the statement prescribes TreeError only there)",
 ]
-CLASS_SPECS = ["HNM", "HLM", "Node", "AnyNode", "SymlinkNode", "PlainNM", "SlotLM", "DictLM", ["Node", "AnyNode", "SymlinkNode", "PlainNM"], ["SlotLM", "DictLM"], ["Node", "SymlinkNodeU"], ["AnyNode", "SymlinkNodeU", "SymlinkNodeU"], "HEqNM", "HEqLM", "HSlotStoreNM", "HSideNM"]
+CLASS_SPECS = ["HNM", "HLM", "Node", "AnyNode", "SymlinkNode", "PlainNM", "SlotLM", "DictLM", ["Node", "AnyNode", "SymlinkNode", "PlainNM"], ["SlotLM", "DictLM"], ["Node", "SymlinkNodeU"], ["AnyNode", "SymlinkNodeU", "SymlinkNodeU"], "HEqNM", "HEqLM", "HSlotStoreNM", "HSideNM", "HCopyNM", "HCopyLM"]
 class CostedAny(AnyNode):
     """An AnyNode subclass whose attach hooks read an attribute that was given to the constructor as a keyword (a budget
     check, a log line): `AnyNode(parent=p, cost=4)` behaves like `n = AnyNode(cost=4); n.parent = p`."""
@@ -188,7 +188,7 @@ def check_effectful(case, acc):
     """n.children = xs where xs is a lazily evaluated generator whose evaluation itself attaches new nodes to n (a 'sync the
     children with this name list' helper that re-uses existing children and creates the missing ones with parent=n):
     afterwards n.children == tuple(xs), in that order."""
-    cls = {"Node": Node, "SlotLM": nodes.SlotLM, "PlainNM": nodes.PlainNM, "DictLM": nodes.DictLM}[case["cls"]]
+    cls = {"Node": Node, "AnyNode": lambda name, **kw: AnyNode(name=name, **kw), "SlotLM": nodes.SlotLM, "PlainNM": nodes.PlainNM, "DictLM": nodes.DictLM}[case["cls"]]
     n = cls("n")
     old = [cls("old%d" % i, parent=n) for i in range(case["old"])]
     made = []
@@ -213,6 +213,38 @@ def check_effectful(case, acc):
     for node in old:
         if (node.parent is n) != any(node is e for e in expect):
             raise Violation("effect", "%s: former child %s has the wrong parent after the assignment" % (case["cls"], node.name))
+    # ... and a REFUSED assignment from such a generator: evaluating xs detaches one child of n (user code, not the library),
+    # then xs names n itself. The call is refused with LoopError and n keeps the children it had when the assignment
+    # proper began - the node that user code had detached is not named by the call and is not put back
+    m = cls("m")
+    kids = [cls("k%d" % i, parent=m) for i in range(3)]
+
+    def refusing():
+        kids[0].parent = None
+        yield kids[2]
+        yield m
+
+    try:
+        m.children = refusing()
+        raise Violation("missing-refusal", "%s: children = (k2, m itself) was accepted" % case["cls"])
+    except LoopError:
+        pass
+    got = m.children
+    if len(got) != 2 or got[0] is not kids[1] or got[1] is not kids[2] or kids[0].parent is not None:
+        raise Violation("effect", "%s: after a refused children assignment whose generator had detached k0: m.children = %s, k0.parent = %r (expected (k1, k2) and None)" % (case["cls"], [c.name for c in got], kids[0].parent))
+    if case["cls"] in ("Node", "AnyNode"):
+        # constructor arguments behave like the assignments: parent first, THEN the children iterable is evaluated
+        make = (lambda name, **kw: Node(name, **kw)) if case["cls"] == "Node" else (lambda name, **kw: AnyNode(name=name, **kw))
+        p = make("p")
+        a, b = make("a", parent=p), make("b", parent=p)
+        def lazily():  # (a generator FUNCTION: a generator expression would evaluate its outermost iterable at once)
+            for sibling in p.children[-1].siblings:
+                yield sibling
+
+        x = make("x", parent=p, children=lazily())
+        want_p, want_x = [x], [a, b]
+        if [id(c) for c in p.children] != [id(c) for c in want_p] or [id(c) for c in x.children] != [id(c) for c in want_x]:
+            raise Violation("ctor-effect", "%s(parent=p, children=<generator reading p.children[-1].siblings>): p has %s, the new node has %s; the assignments x.parent = p; x.children = <generator> give p(x(a, b))" % (case["cls"], [c.name for c in p.children], [c.name for c in x.children]))
     acc.nontrivial(True)
     acc.tag("children_from_a_generator_with_side_effects")
 
@@ -485,7 +517,7 @@ def random_cases(draw):
 def run_task(task, acc):
     if task["engine"] == "effectful":
         orders = [[0, "x"], ["x", 0], [1, "x", "y", 0], ["x", 1, "y"], [0, 1, "x"], ["x", "y"], [1, "x"], [2, "x", 0, "y", 1]]
-        cases = ({"kind": "effectful", "cls": cls, "old": 3, "order": order} for cls in ("Node", "SlotLM", "PlainNM", "DictLM") for order in orders)
+        cases = ({"kind": "effectful", "cls": cls, "old": 3, "order": order} for cls in ("Node", "AnyNode", "SlotLM", "PlainNM", "DictLM") for order in orders)
         return acc.run_enum(check_case, cases)
     if task["engine"] == "evict":
         n = task["n"]
